@@ -367,7 +367,6 @@ def check_region(ctx, case, ignore_known=False):
     sc = max(1.0, max(abs(v) for s in H.sections for v in s.pos(np.array([0.0, 1.0])).ravel()))
     band = 4 * tol + 1e-9 * sc
     total = 0
-    k1_zones = 0
     judged_any = False
     centres = []
     excls = {}
@@ -420,22 +419,7 @@ def check_region(ctx, case, ignore_known=False):
             if th <= 1e-6 and thc > 2e-3:
                 R = max(hw_j, hw_p) * (math.tan(thc / 2) + 1 / math.cos(thc / 2)) + 2 * band
                 excl.append((float(ca[-1][0]), float(ca[-1][1]), R))
-            # known finding C08-K1: at a tangent-continuous joint where the slope of the width or of the offset changes the two
-            # edge curves meet at a shallow angle; the intersection search may then converge to a far crossing of the
-            # (extrapolated, width-clamped) previous edge with the next one and the outline follows the extrapolation
-            # instead of the true edge (a lens up to a few hundredths deep, several tolerances).  The last / first 30 % of
-            # the two sections next to such a joint are not judged.
-            if th <= 1e-6 and not ignore_known:
-                n0, n1 = len(ca) - 1, len(cb) - 1
-                ha = H.halfwidth(i, s - 1, np.linspace(0, 1, n0 + 1))
-                hb = H.halfwidth(i, s, np.linspace(0, 1, n1 + 1))
-                slope_w = abs((ha[-1] - ha[-2]) / max(np.hypot(*(ca[-1] - ca[-2])), 1e-12) - (hb[1] - hb[0]) / max(np.hypot(*(cb[1] - cb[0])), 1e-12))
-                if thc > 2e-3 or slope_w > 2e-3:
-                    k1_zones += 1
-                    for arr, hh, rng in ((ca, ha, range(int(0.7 * n0), n0 + 1)), (cb, hb, range(0, int(0.3 * n1) + 1))):
-                        for kk in rng[::2]:
-                            excl.append((float(arr[kk][0]), float(arr[kk][1]), float(hh[kk]) * 1.2 + 3 * band))
-            elif th > 1e-6 and thc > th:
+            if th > 1e-6 and thc > th:
                 th = thc
             if th > 1e-6:
                 R = (o_j + max(hw_j, hw_p)) * (math.tan(th / 2) + 1 / math.cos(th / 2)) + 2 * band
@@ -492,8 +476,6 @@ def check_region(ctx, case, ignore_known=False):
             total += len(S)
             judged_any = True
     ctx.stats.count("samples", total)
-    if k1_zones:
-        ctx.stats.count("known_C08-K1_joint_zones_not_judged", k1_zones)
     if io != "none":
         rd = [o for o in outs if isinstance(o, dict) and "ncells" in o][0]
         res = [o for o in outs if isinstance(o, dict) and "result" in o and "err" not in o][0]["result"]
